@@ -23,64 +23,64 @@ def alawOk (u : Nat) : Bool :=
   let x : Int := (u : Int) - 32768
   decide ((alawDecode (alawEncode x) - x).natAbs ≤ (alawHalfStep (alawEncode x)).toNat)
 
-theorem all_range' {p : Nat → Bool} {a n : Nat} (h : (List.range' a n).all p = true) (i : Nat) (h1 : a ≤ i) (h2 : i < a + n) :
+theorem all_range_p {p : Nat → Bool} {a n : Nat} (h : (List.range' a n).all p = true) (i : Nat) (h1 : a ≤ i) (h2 : i < a + n) :
     p i = true := by
   rw [List.all_eq_true] at h
   exact h i (List.mem_range'_1.mpr ⟨h1, h2⟩)
 
 set_option maxHeartbeats 2000000 in
-private theorem ulaw_q0 : (List.range' 0 8192).all ulawOk = true := by decide +kernel
+theorem ulaw_q0 : (List.range' 0 8192).all ulawOk = true := by decide +kernel
 set_option maxHeartbeats 2000000 in
-private theorem ulaw_q1 : (List.range' 8192 8192).all ulawOk = true := by decide +kernel
+theorem ulaw_q1 : (List.range' 8192 8192).all ulawOk = true := by decide +kernel
 set_option maxHeartbeats 2000000 in
-private theorem ulaw_q2 : (List.range' 16384 8192).all ulawOk = true := by decide +kernel
+theorem ulaw_q2 : (List.range' 16384 8192).all ulawOk = true := by decide +kernel
 set_option maxHeartbeats 2000000 in
-private theorem ulaw_q3 : (List.range' 24576 8192).all ulawOk = true := by decide +kernel
+theorem ulaw_q3 : (List.range' 24576 8192).all ulawOk = true := by decide +kernel
 set_option maxHeartbeats 2000000 in
-private theorem ulaw_q4 : (List.range' 32768 8192).all ulawOk = true := by decide +kernel
+theorem ulaw_q4 : (List.range' 32768 8192).all ulawOk = true := by decide +kernel
 set_option maxHeartbeats 2000000 in
-private theorem ulaw_q5 : (List.range' 40960 8192).all ulawOk = true := by decide +kernel
+theorem ulaw_q5 : (List.range' 40960 8192).all ulawOk = true := by decide +kernel
 set_option maxHeartbeats 2000000 in
-private theorem ulaw_q6 : (List.range' 49152 8192).all ulawOk = true := by decide +kernel
+theorem ulaw_q6 : (List.range' 49152 8192).all ulawOk = true := by decide +kernel
 set_option maxHeartbeats 2000000 in
-private theorem ulaw_q7 : (List.range' 57344 8192).all ulawOk = true := by decide +kernel
+theorem ulaw_q7 : (List.range' 57344 8192).all ulawOk = true := by decide +kernel
 
 set_option maxHeartbeats 2000000 in
-private theorem alaw_q0 : (List.range' 0 8192).all alawOk = true := by decide +kernel
+theorem alaw_q0 : (List.range' 0 8192).all alawOk = true := by decide +kernel
 set_option maxHeartbeats 2000000 in
-private theorem alaw_q1 : (List.range' 8192 8192).all alawOk = true := by decide +kernel
+theorem alaw_q1 : (List.range' 8192 8192).all alawOk = true := by decide +kernel
 set_option maxHeartbeats 2000000 in
-private theorem alaw_q2 : (List.range' 16384 8192).all alawOk = true := by decide +kernel
+theorem alaw_q2 : (List.range' 16384 8192).all alawOk = true := by decide +kernel
 set_option maxHeartbeats 2000000 in
-private theorem alaw_q3 : (List.range' 24576 8192).all alawOk = true := by decide +kernel
+theorem alaw_q3 : (List.range' 24576 8192).all alawOk = true := by decide +kernel
 set_option maxHeartbeats 2000000 in
-private theorem alaw_q4 : (List.range' 32768 8192).all alawOk = true := by decide +kernel
+theorem alaw_q4 : (List.range' 32768 8192).all alawOk = true := by decide +kernel
 set_option maxHeartbeats 2000000 in
-private theorem alaw_q5 : (List.range' 40960 8192).all alawOk = true := by decide +kernel
+theorem alaw_q5 : (List.range' 40960 8192).all alawOk = true := by decide +kernel
 set_option maxHeartbeats 2000000 in
-private theorem alaw_q6 : (List.range' 49152 8192).all alawOk = true := by decide +kernel
+theorem alaw_q6 : (List.range' 49152 8192).all alawOk = true := by decide +kernel
 set_option maxHeartbeats 2000000 in
-private theorem alaw_q7 : (List.range' 57344 8192).all alawOk = true := by decide +kernel
+theorem alaw_q7 : (List.range' 57344 8192).all alawOk = true := by decide +kernel
 
 theorem ulawOk_all (u : Nat) (hu : u < 65536) : ulawOk u = true := by
-  by_cases h0 : u < 8192; · exact all_range' ulaw_q0 u (by omega) (by omega)
-  by_cases h1 : u < 16384; · exact all_range' ulaw_q1 u (by omega) (by omega)
-  by_cases h2 : u < 24576; · exact all_range' ulaw_q2 u (by omega) (by omega)
-  by_cases h3 : u < 32768; · exact all_range' ulaw_q3 u (by omega) (by omega)
-  by_cases h4 : u < 40960; · exact all_range' ulaw_q4 u (by omega) (by omega)
-  by_cases h5 : u < 49152; · exact all_range' ulaw_q5 u (by omega) (by omega)
-  by_cases h6 : u < 57344; · exact all_range' ulaw_q6 u (by omega) (by omega)
-  exact all_range' ulaw_q7 u (by omega) (by omega)
+  by_cases h0 : u < 8192; · exact all_range_p ulaw_q0 u (by omega) (by omega)
+  by_cases h1 : u < 16384; · exact all_range_p ulaw_q1 u (by omega) (by omega)
+  by_cases h2 : u < 24576; · exact all_range_p ulaw_q2 u (by omega) (by omega)
+  by_cases h3 : u < 32768; · exact all_range_p ulaw_q3 u (by omega) (by omega)
+  by_cases h4 : u < 40960; · exact all_range_p ulaw_q4 u (by omega) (by omega)
+  by_cases h5 : u < 49152; · exact all_range_p ulaw_q5 u (by omega) (by omega)
+  by_cases h6 : u < 57344; · exact all_range_p ulaw_q6 u (by omega) (by omega)
+  exact all_range_p ulaw_q7 u (by omega) (by omega)
 
 theorem alawOk_all (u : Nat) (hu : u < 65536) : alawOk u = true := by
-  by_cases h0 : u < 8192; · exact all_range' alaw_q0 u (by omega) (by omega)
-  by_cases h1 : u < 16384; · exact all_range' alaw_q1 u (by omega) (by omega)
-  by_cases h2 : u < 24576; · exact all_range' alaw_q2 u (by omega) (by omega)
-  by_cases h3 : u < 32768; · exact all_range' alaw_q3 u (by omega) (by omega)
-  by_cases h4 : u < 40960; · exact all_range' alaw_q4 u (by omega) (by omega)
-  by_cases h5 : u < 49152; · exact all_range' alaw_q5 u (by omega) (by omega)
-  by_cases h6 : u < 57344; · exact all_range' alaw_q6 u (by omega) (by omega)
-  exact all_range' alaw_q7 u (by omega) (by omega)
+  by_cases h0 : u < 8192; · exact all_range_p alaw_q0 u (by omega) (by omega)
+  by_cases h1 : u < 16384; · exact all_range_p alaw_q1 u (by omega) (by omega)
+  by_cases h2 : u < 24576; · exact all_range_p alaw_q2 u (by omega) (by omega)
+  by_cases h3 : u < 32768; · exact all_range_p alaw_q3 u (by omega) (by omega)
+  by_cases h4 : u < 40960; · exact all_range_p alaw_q4 u (by omega) (by omega)
+  by_cases h5 : u < 49152; · exact all_range_p alaw_q5 u (by omega) (by omega)
+  by_cases h6 : u < 57344; · exact all_range_p alaw_q6 u (by omega) (by omega)
+  exact all_range_p alaw_q7 u (by omega) (by omega)
 
 /-- µ-law: for EVERY 16-bit sample, decode (encode x) is within half a quantisation step of x -/
 theorem ulaw_quantiser_error (x : Int) (h1 : -32768 ≤ x) (h2 : x ≤ 32767) :
